@@ -62,10 +62,18 @@ claim("C08", "model_checking", "protocol tables (Directive::parse, skip with hav
       "Conditional assembly is implemented as a (mode, line class, nesting counter) protocol spread over three functions; the three tables are extracted from the current MIR with conditions and counter symbolic, and the resulting machine is model-checked against 'first true arm, else when none, unselected lines inert (not even their conditions evaluated)' over all well-formed skeletons: any number of arms, every truth assignment, nesting depth <= 4 (finite product, fully explored). A disagreement is reported with the shortest skeleton. No repository code runs; the machine is the extracted table.",
       "Relies on the extraction being exact (every path of the three functions classified, else unprovable). Malformed nesting and side effects of conditions are outside C08.", engine="E0+E1")
 
+claim("C09", "other", "lower-case typestate on macro-table keys (field-based flow analysis incl. RefCell fields); re-parse-safety of the operand printers read from their format templates in MIR; def-use of the segment splice loop; path rules on macro_expand",
+      "Macro expansion re-renders parsed arguments to text and re-parses the body; claimed are the four structural conditions without which it cannot be faithful: definition and call agree on the name's letter case, compound-expression printers keep their grouping (literal parentheses, or precedence-aware printing which is not judged), every code segment of an expansion is spliced from the loop's own element, an unknown macro / a left-over @n is an error. Level 'other': equality of expansion and hand-expansion for arbitrary bodies is behavioural and not decided.",
+      "Trusted: rustc MIR, analysis/norm.py, decoding of rustc's format_args templates. Nested conditionals in bodies are C08, recursion depth C16.", engine="E0+E3+E4")
+claim("C10", "other", "whole-program lower-case typestate on the keys of the five symbol maps (field-based flow analysis over resolved MIR: abstract ADT fields, parameters over all call sites, virtual calls) + path rules by abstract interpretation",
+      "Case-insensitive matching is decided as a typestate at all 13 access sites of equs/labels/defs/sets/special: every key must be provably lower-cased, followed through Item/Document payloads (every construction site) and parameters (every call site, virtual calls expanded). Unbound identifier and alias -> Err, bound identifier = looked-up value, alias = stored register, duplicate label rejected, .undef removes, .set/.def/.undef applied in pass 2's forward loop, labels bound in pass 1 before pass 2, .equ at parse time are path/order facts. Level 'other': lookup-order precedence, cross-kind collisions, .equ redefinition are not decided.",
+      "Trusted: rustc MIR, analysis/norm.py. Cyclic .equ is C16.", engine="E0+E1+E4")
+
 ENGINES = [
     {"name": "E0 fact driver", "path": "driver/", "serves_properties": sorted(P), "kind_free_text": "rustc_private driver (RUSTC_WORKSPACE_WRAPPER) dumping callee-resolved MIR, ADT/static/impl tables of /repo's two crates as JSON"},
     {"name": "E1 abstract interpreter", "path": "analysis/absint.py", "serves_properties": ["C01", "C02", "C03", "C04", "C05", "C06", "C08", "C12", "C13"], "kind_free_text": "path-sensitive abstract interpretation of MIR: named unknowns, value sets, bit provenance, linear forms; no solver, no execution of /repo"},
     {"name": "E2 PEG reader", "path": "analysis/peg.py", "serves_properties": ["C01", "C05", "C14", "C16"], "kind_free_text": "own reader for the rust-peg grammar in src/document.rs (rules, ordered choice, classes, repetition, precedence!), cross-checked per rule against the literals in the compiled parser's MIR"},
+    {"name": "E4 lower-case typestate", "path": "analysis/norm.py", "serves_properties": ["C09", "C10", "C14"], "kind_free_text": "greatest-fixpoint, field-sensitive 'always lower-cased string' analysis over resolved MIR"},
     {"name": "E3 graphs", "path": "analysis/graph.py", "serves_properties": ["C15", "C16", "C17", "C18", "C11", "C09"], "kind_free_text": "call graph over resolved callees (virtual/default/fmt/vtable edges), CFG, dominators, reachability"},
 ]
 
